@@ -52,7 +52,18 @@ func c02history(k int) {
 		return pv
 	}
 	w := &c02watch{}
-	w.build = func(t *Type) reflect.Value { return reflect.New(t.Type()).Elem() }
+	// the watcher's initial value may set the nested leaf (and later withdraw it)
+	setP0 := zzverif.Bool("w_init_setP")
+	w.build = func(t *Type) reflect.Value {
+		pv := reflect.New(t.Type()).Elem()
+		if setP0 {
+			pf := pv.FieldByName("P")
+			pf.Set(reflect.New(pf.Type().Elem()))
+			vv := int16(41)
+			pf.Elem().FieldByName("V").Set(reflect.ValueOf(&vv))
+		}
+		return pv
+	}
 	ctx, cancel := context.WithCancel(context.Background())
 	defer cancel()
 	d, err := Config(ctx, def, s0, w)
@@ -88,8 +99,23 @@ func c02history(k int) {
 		}
 		versions = append(versions, got)
 		zzverif.Assert(c01eq(reflect.ValueOf(def).Elem(), reflect.ValueOf(def0).Elem()), "C02 "+tag+": stacking modified the caller's defaults")
+		// the consumer owns what it was handed: whatever it writes through this version must
+		// not show up in any later one
+		cur := d.View()
+		cur.M["scribble"] = 9
+		if len(cur.S) > 0 {
+			cur.S[0] = 99
+		}
+		if cur.P != nil {
+			cur.P.V = 77
+		}
+		cur.N.V = 66
 	}
-	check("initial", nil)
+	check("initial", func(ov reflect.Value) {
+		if setP0 {
+			ov.FieldByName("P").Elem().FieldByName("V").SetInt(41)
+		}
+	})
 	for i := 0; i < k; i++ {
 		pv := reflect.New(w.t.Type()).Elem()
 		var wl func(ov reflect.Value)
